@@ -107,7 +107,11 @@ func drawBatch(t *rapid.T, label string, cfg *gen.StoreCfg, minN, maxN int) []*m
 	var batch []*mocrelay.Event
 	for i := 0; i < n; i++ {
 		var e *mocrelay.Event
-		op := rapid.IntRange(0, 19).Draw(t, fmt.Sprintf("%s%d.op", label, i))
+		op := rapid.IntRange(0, 20).Draw(t, fmt.Sprintf("%s%d.op", label, i))
+		if op == 20 {
+			batch = append(batch, cfg.DrawBurst(t)...)
+			continue
+		}
 		switch {
 		case op < 8 || len(world.Events) == 0:
 			e = cfg.DrawEvent(t)
